@@ -92,13 +92,16 @@ CLAIMED = {
         text='Qed-closed universal theorems (Properties/C06.v) about the Gallina model of fjm_writer/fjm_reader: round trip for '
              'every accepted call sequence x width x version x flags x zero-tail threshold (C06_roundtrip), version '
              'independence, dense/lazy zero-tail independence, relative-jump cancellation, the writer ends only in its own '
-             'error (C06_unrepresentable_rejected) and what it accepts is representable.',
+             'error (C06_unrepresentable_rejected) and what it accepts is representable. Source tie (Properties/C06_source.v '
+             'and C10_source.v): Writer.add_data / add_segment (with every validation helper and the relative-jump rewrite) / '
+             'write_to_file and Reader._validate_segments / _init_memory are re-translated from the current Python source on '
+             'every run (IR of Model/PyIR.v) and proved equal to the model for every state, argument and compressor.',
         design_ref='DESIGN.md section 4, C06',
         note='Premises: decompress(compress x)=x for liblzma (the real codec answers are fed to the model each run); pool and '
              'table lengths below 2^64. The hand-written model is tied to /repo each run by a differential campaign evaluated '
              'with vm_compute inside Coq, plus the spec evaluated on the real behaviour. Version independence of assembled '
              'programs and get_word\'s address mask are campaign-only. F3-F5 fixed.',
-        technique='Coq round-trip / codec theorems on a writer+reader model + correspondence campaign evaluated in Coq'),
+        technique='Coq round-trip / codec theorems on a writer+reader model + Python-source translator with kernel-checked equality to the model + correspondence campaign evaluated in Coq'),
     'C08': dict(
         category='proof',
         text='Theorems by kernel computation on images regenerated from the current stl and assembler on every run: for each '
